@@ -2201,6 +2201,11 @@ namespace awkward {
     bool make_shifts = (isoption()  &&
                         reducer.returns_positions()  &&
                         !branchdepth.first  && negaxis == branchdepth.second);
+    if (!isoption()  &&  reducer.returns_positions()  &&  shifts.length() != 0) {
+      // a plain (non-option) index only rearranges the elements: the shifts
+      // computed by the enclosing list must be passed on, not dropped
+      make_shifts = true;
+    }
 
     Index64 nextshifts(make_shifts ? index_.length() - numnull : 0);
     if (make_shifts) {
